@@ -182,6 +182,15 @@ def Buf.ctorData (data : List Byte) (k : Nat) : M Buf := do
 /-- the exposed bytes `[bufferStart, bufferEnd)` (a checked load) -/
 def Buf.contents (b : Buf) : M (List Byte) := b.store.load b.s (b.e - b.s)
 
+/-- `size()`: `bufferEnd - bufferStart` -/
+def Buf.size (b : Buf) : Nat := b.e - b.s
+
+/-- `isEmpty()`: `bufferStart == bufferEnd` -/
+def Buf.isEmpty (b : Buf) : Bool := b.s == b.e
+
+/-- `capacity()`: `_capacity` -/
+def Buf.capacity (b : Buf) : Nat := b.cap
+
 /-! ### methods -/
 
 /-- `attach(data, length)`; `range` = the bytes of the attached range -/
